@@ -153,7 +153,7 @@ class App(object):
         # (when that is still within the link timeout it announced); the initiator has to wait that long
         if self.side == "t" and j in (2, 9):
             rwt = 4096 / 13.56E6 * 2 ** self.x["rwt"]
-            if self.x["rwt"] >= 6 and 900.0 * rwt + 3 <= (self.x["ltoT"] // 10) * 10:
+            if self.x["rwt"] >= 6 and 900.0 * rwt + 3 <= ((self.x["ltoT"] // 10) % 256) * 10:
                 self.air.clock.sleep(0.9 * rwt)
                 self.shared["slow"] = self.shared.get("slow", 0) + 1
         # connection-less traffic
